@@ -306,26 +306,49 @@ def _has_concrete_subclass_only_role(prog, c: str, registered: set[str]) -> bool
 
 def r4_template(ctx) -> None:
     r, prog = ctx.r, ctx.prog
-    r.rule("C12.R4", "template substitution: every keyword of a Template.substitute/safe_substitute call in the transformations that is fed from the log source takes the attribute of the same name ($service ← logsource.service)")
-    n = 0
-    for f in prog.functions_in(TR):
-        for c in ast.walk(f.node):
-            if isinstance(c, ast.Call) and isinstance(c.func, ast.Attribute) and c.func.attr in ("safe_substitute", "substitute"):
-                for k in c.keywords:
-                    if k.arg is None or not isinstance(k.value, ast.Attribute):
-                        continue
-                    recv = unparse(k.value.value)
-                    if "logsource" not in recv:
-                        continue
-                    n += 1
-                    loc = f"{f.module.relpath}:{k.value.lineno}"
-                    if k.value.attr == k.arg:
-                        r.ok("C12.R4", f.qual, f"${k.arg} ← {unparse(k.value)}", loc)
-                    else:
-                        r.violation("C12.R4", f.qual, f"{k.arg}={unparse(k.value)}", f"${k.arg} is replaced by the log source's {k.value.attr}: the added condition differs from the documented rewrite", loc)
-                names = {k.arg for k in c.keywords if k.arg}
-                if names and any("logsource" in unparse(k.value) for k in c.keywords) and names != {"category", "product", "service"}:
-                    r.violation("C12.R4", f.qual, f"template variables {sorted(names)}", "the documented template variables are $category, $product and $service", f"{f.module.relpath}:{c.lineno}")
+    r.rule("C12.R4", "template substitution: add_condition with template=True, interpreted (sa.tabulate, Proxy) on a stand-in rule, replaces $category, $product and $service in every string of the configured conditions (plain values and list elements) by the log source attribute of the same name and leaves other values alone; without template the conditions are used as configured")
+    import string as _string
+    import types as _types
+    from ..tabulate import Proxy, call_method, Raised
+    AC = TR + ".condition.AddConditionTransformation"
+    f = prog.func(AC + ".apply")
+
+    class SigmaRule:
+        def __init__(self):
+            self.logsource = _types.SimpleNamespace(category="CAT", product="PROD", service="SERV")
+            self.detection = _types.SimpleNamespace(detections={}, parsed_condition=[])
+
+    class SigmaDetection:
+        made = []
+        @classmethod
+        def from_definition(cls, d, *a, **k):
+            cls.made.append(d)
+            return ("detection", id(d))
+
+    conds = {"f": "$category-$product-$service", "g": ["$service", 5, "x${category}y", "$unknown"], "h": 7, "i": "plain"}
+    want = {"f": "CAT-PROD-SERV", "g": ["SERV", 5, "xCATy", "$unknown"], "h": 7, "i": "plain"}
+    env = {"SigmaRule": SigmaRule, "SigmaDetection": SigmaDetection, "string": _string, "super": lambda: _types.SimpleNamespace(apply=lambda rule: None)}
+    IK = {"max_steps": 8000}
+    for template, expect in ((True, want), (False, conds)):
+        SigmaDetection.made.clear()
+        rule = SigmaRule()
+        me = Proxy(prog, AC, env, {"template": template, "conditions": {k: (list(v) if isinstance(v, list) else v) for k, v in conds.items()}, "name": "added", "negated": False,
+                                   "processing_item_applied": lambda d: None, "processing_item": None, "_pipeline": None}, interp_kwargs=IK)
+        try:
+            call_method(prog, AC, "apply", me, env, rule, interp_kwargs=IK)
+            got = SigmaDetection.made[-1] if SigmaDetection.made else None
+        except Raised as ex:
+            got = f"raises {ex}"
+        for key in sorted(expect):
+            g_ = got.get(key) if isinstance(got, dict) else got
+            if g_ == expect[key]:
+                r.ok("C12.R4", f.qual, f"template={template}: {key!r}: {conds[key]!r} → {g_!r}", f.loc)
+            else:
+                r.violation("C12.R4", f.qual, f"template={template}: condition {key!r}: {conds[key]!r} becomes {g_!r} instead of {expect[key]!r}", "a template variable is replaced by another log source attribute, not replaced, or replaced without template mode: the added condition differs from the documented rewrite (the documented template variables are $category, $product and $service)", f.loc)
+        if isinstance(got, dict) and "added" in rule.detection.detections:
+            r.ok("C12.R4", f.qual, f"template={template}: the detection built from the conditions is stored under the configured name", f.loc)
+        else:
+            r.violation("C12.R4", f.qual, f"template={template}: detections = {sorted(rule.detection.detections)}", "the added detection is not stored under the configured name", f.loc)
     r.floor("C12.R4", 6)
 
 
